@@ -161,7 +161,28 @@ fn run_rtcp_stats(i: &[u8], _p: &mut Probe) -> u32 {
     for p in &v {
         sc.process_rtcp(p);
     }
-    1 + sc.build_report_blocks().len().min(2) as u32 + 4 * v.len().min(3) as u32
+    // a second collector that has "sent" a Sender Report for every LSR word the datagram echoes
+    // (what a peer that saw our SRs can always arrange), so that the round-trip branch runs on the
+    // datagram's own DLSR values
+    let sc2 = StatsCollector::new();
+    let mut echoed = 0usize;
+    for p in &v {
+        let blocks = match p {
+            rustrtc::rtp::RtcpPacket::ReceiverReport(rr) => &rr.report_blocks,
+            rustrtc::rtp::RtcpPacket::SenderReport(sr) => &sr.report_blocks,
+            _ => continue,
+        };
+        for b in blocks {
+            if b.last_sender_report != 0 {
+                sc2.record_sr_sent(1, b.last_sender_report);
+                echoed += 1;
+            }
+        }
+    }
+    for p in &v {
+        sc2.process_rtcp(p);
+    }
+    1 + sc.build_report_blocks().len().min(2) as u32 + 4 * v.len().min(3) as u32 + 16 * echoed.min(2) as u32
 }
 
 pub fn entries() -> Vec<Entry> {
